@@ -33,7 +33,7 @@ def load_findings():
 def match_finding(findings, prop, fn, obname):
     for f in findings["findings"]:
         props = f.get("properties") or [f.get("property")]
-        if prop in props and f["fn"] == fn and f["obligation"] == obname:
+        if prop in props and f["fn"] in (fn, fn.split("@")[0]) and f["obligation"] == obname:
             return f
     return None
 
